@@ -509,12 +509,16 @@ func (w *world) judge(t fataler, m *msg, specs []spec, cmd string, r *imapc.Resu
 func (m *msg) describe() string {
 	var sb strings.Builder
 
+	if p := os.Getenv("C13_DUMP"); p != "" {
+		_ = os.WriteFile(p, m.A, 0o644)
+	}
+
 	fmt.Fprintf(&sb, "message: via=%s eol=%q appended=%d bytes levels=%d uid=%d seq=%d id=%q\n", m.via, m.eol(), len(m.A), m.tree.Levels, m.uid, m.seq, m.idLine)
 
 	var rec func(n *gmime.Node, indent string)
 
 	rec = func(n *gmime.Node, indent string) {
-		fmt.Fprintf(&sb, "%s%s %s/%s path=%q header=%d body=%d fields=%d msg=%v\n", indent, n.Kind, n.Type, n.Subtype, gmime.PathString(n.Path),
+		fmt.Fprintf(&sb, "%s%s %s/%s path=%q unclosed=%v header=%d body=%d fields=%d msg=%v\n", indent, n.Kind, n.Type, n.Subtype, gmime.PathString(n.Path), n.NoClose,
 			n.BodyStart-n.Start, n.End-n.BodyStart, len(n.Fields), n.IsMessage)
 
 		for _, c := range n.Children {
